@@ -66,6 +66,10 @@ func VerifC07_ACL(h *zz.H) {
 	polls := make(chan bool)
 	st := &vStream{ctx: context.Background(), h: h, first: &pb.SubscribeRequest{Request: &pb.SubscribeRequest_Subscribe{Subscribe: sl}}, polls: polls, block: mode == pb.SubscriptionList_STREAM}
 	gotA, gotB, delA, delB := 0, 0, 0, 0
+	tdelA, tdelB := 0, 0
+	isTD := func(n *pb.Notification) bool {
+		return len(n.Delete) == 1 && len(n.Delete[0].Elem) == 1 && n.Delete[0].Elem[0].Name == "*"
+	}
 	yA, yB := 0, 0
 	synced := make(chan bool, 4)
 	st.onSend = func(r *pb.SubscribeResponse) error {
@@ -78,7 +82,11 @@ func VerifC07_ACL(h *zz.H) {
 			if t == c05DevA {
 				h.Assert(acl.allowA, "C07: no response whose target the caller is not authorised for is ever sent")
 				gotA++
-				delA += len(n.Delete)
+				if isTD(n) {
+					tdelA++
+				} else {
+					delA += len(n.Delete)
+				}
 				if len(n.Update) == 1 && n.Update[0].Path.Elem[0].Name == "y" {
 					yA++
 				}
@@ -86,7 +94,11 @@ func VerifC07_ACL(h *zz.H) {
 			if t == c05DevB {
 				h.Assert(acl.allowB, "C07: no response whose target the caller is not authorised for is ever sent")
 				gotB++
-				delB += len(n.Delete)
+				if isTD(n) {
+					tdelB++
+				} else {
+					delB += len(n.Delete)
+				}
 				if len(n.Update) == 1 && n.Update[0].Path.Elem[0].Name == "y" {
 					yB++
 				}
@@ -118,14 +130,35 @@ func VerifC07_ACL(h *zz.H) {
 		close(polls)
 		h.Assert(<-done == nil, "C07: an authorised POLL call ends successfully")
 	default:
-		// STREAM: updates and deletes for both targets after the subscription started
+		// STREAM: updates and deletes for both targets after the subscription started; on an
+		// all-targets subscription optionally the removal of one target (the target-delete
+		// notification is subject to the ACL like everything else)
+		remove := 0
+		if target == "*" && (!sl.UpdatesOnly || h.Param("RMUO", 0) == 1) {
+			remove = h.Range("remove_target", 0, 2)
+		}
 		go func() {
 			c.GnmiUpdate(mk(c05DevA, "y", 2, 2))
 			c.GnmiUpdate(mk(c05DevB, "y", 2, 2))
 			c.GnmiUpdate(&pb.Notification{Timestamp: 3, Prefix: &pb.Path{Target: c05DevA}, Delete: []*pb.Path{{Elem: []*pb.PathElem{{Name: "x"}}}}})
 			c.GnmiUpdate(&pb.Notification{Timestamp: 3, Prefix: &pb.Path{Target: c05DevB}, Delete: []*pb.Path{{Elem: []*pb.PathElem{{Name: "x"}}}}})
+			if remove != 0 {
+				<-synced // the removal happens after the subscriber is registered and has its snapshot
+			}
+			switch remove {
+			case 1:
+				c.Remove(c05DevA)
+			case 2:
+				c.Remove(c05DevB)
+			}
 		}()
 		h.Quiesce()
+		if remove == 1 && acl.allowA {
+			h.Assert(tdelA == 1, "C07: the removal of an authorised target is announced on an all-targets stream")
+		}
+		if remove == 2 && acl.allowB {
+			h.Assert(tdelB == 1, "C07: the removal of an authorised target is announced on an all-targets stream")
+		}
 	}
 	// everything for authorised targets is still delivered
 	wantA := (target == c05DevA || target == "*") && acl.allowA
